@@ -200,6 +200,7 @@ func applySeqCmd(args []string) error {
 				continue
 			}
 			fmt.Fprintf(w, "B %d %d %s\n", len(nents), rc.VerifAppliedIndex(), strings.Join(ids, ","))
+			w.Flush() // entriesToApply ends the process (log.Fatalf) when it is handed a gap
 		case "END":
 			fmt.Fprintf(w, "END\n")
 		}
